@@ -91,6 +91,14 @@ func judgeRender(res *Result, exp expectation, out string, err error) {
 		case !ampsAreEntities(out):
 			res.Status, res.Kind, res.Msg = "viol", "bare-ampersand", fmt.Sprintf("an & of the literal is not an entity in %q", out)
 		}
+	case "errorout":
+		// either the render fails, or it prints exactly this
+		res.Stats["nontrivial"] = 1
+		if err == nil && out != expandMarkers(exp.Out) {
+			res.Status, res.Kind = "viol", "wrong-output"
+			res.Msg = fmt.Sprintf("want an error (%s) or %q, got %q", exp.Why, expandMarkers(exp.Out), out)
+			res.Got = map[string]any{"out": out}
+		}
 	case "oneof":
 		res.Stats["nontrivial"] = 1
 		if err != nil {
